@@ -17,7 +17,8 @@ package singleflight
 //	       the only field of kind int                                 (the count of callers that joined)
 //	       the only field of type sync.WaitGroup                      (released when fn has returned)
 //
-// If the shape is ambiguous or different (two int fields, an RWMutex, a sync.Map, ...) the helpers
+// If the shape is ambiguous or different (two int fields none or both of which could be today's `dups`, an RWMutex,
+// a sync.Map, ...) the helpers
 // cannot know what to observe: start-up panics with a message that says what was looked for and what
 // was found; the driver exits non-zero and the check reports a broken correspondence — never a guess.
 
@@ -47,12 +48,18 @@ func verifFieldList(t reflect.Type) string {
 	return t.String() + " { " + s + " }"
 }
 
-// verifOnly returns the offset of the only field of t that satisfies want.
-func verifOnly(t reflect.Type, what string, want func(reflect.StructField) bool) (uintptr, reflect.Type) {
+// verifOnly returns the offset of the only field of t that satisfies want. If several do (a change added a second
+// counter, say) the one named `today` — the field's present name, looked up as a string, so nothing breaks when it
+// is renamed — is taken if it is among them; otherwise the shape is ambiguous.
+func verifOnly(t reflect.Type, what, today string, want func(reflect.StructField) bool) (uintptr, reflect.Type) {
 	found := -1
 	for i := 0; i < t.NumField(); i++ {
 		if want(t.Field(i)) {
 			if found >= 0 {
+				// several candidates: the one that still carries today's name, if exactly one of the candidates does
+				if f, ok := t.FieldByName(today); ok && want(f) {
+					return f.Offset, f.Type
+				}
 				panic(fmt.Sprintf("verif shim (singleflight, C16): set-up failure: %s has more than one field that is %s (%s and %s): "+
 					"which one to observe is ambiguous; shape found: %s", t, what, t.Field(found).Name, t.Field(i).Name, verifFieldList(t)))
 			}
@@ -68,14 +75,14 @@ func verifOnly(t reflect.Type, what string, want func(reflect.StructField) bool)
 func verifResolveShape() verifShape {
 	var sh verifShape
 	g := reflect.TypeOf(Group{})
-	sh.mu, _ = verifOnly(g, "a sync.Mutex", func(f reflect.StructField) bool { return f.Type == reflect.TypeOf(sync.Mutex{}) })
-	sh.calls, sh.callsType = verifOnly(g, "a map[string]*<struct> of in-flight calls", func(f reflect.StructField) bool {
+	sh.mu, _ = verifOnly(g, "a sync.Mutex", "mu", func(f reflect.StructField) bool { return f.Type == reflect.TypeOf(sync.Mutex{}) })
+	sh.calls, sh.callsType = verifOnly(g, "a map[string]*<struct> of in-flight calls", "m", func(f reflect.StructField) bool {
 		t := f.Type
 		return t.Kind() == reflect.Map && t.Key().Kind() == reflect.String && t.Elem().Kind() == reflect.Ptr && t.Elem().Elem().Kind() == reflect.Struct
 	})
 	c := sh.callsType.Elem().Elem()
-	sh.dups, _ = verifOnly(c, "of kind int (the count of joined callers)", func(f reflect.StructField) bool { return f.Type.Kind() == reflect.Int })
-	sh.done, _ = verifOnly(c, "a sync.WaitGroup", func(f reflect.StructField) bool { return f.Type == reflect.TypeOf(sync.WaitGroup{}) })
+	sh.dups, _ = verifOnly(c, "of kind int (the count of joined callers)", "dups", func(f reflect.StructField) bool { return f.Type.Kind() == reflect.Int })
+	sh.done, _ = verifOnly(c, "a sync.WaitGroup", "wg", func(f reflect.StructField) bool { return f.Type == reflect.TypeOf(sync.WaitGroup{}) })
 	return sh
 }
 
